@@ -131,7 +131,7 @@ fn run_once(w: &mut World, plan: &SchedPlan, want_log: bool) -> SRun {
                     .set("plan", p.to_json())
                     .set("original_plan", plan.to_json())
                     .set("prelude_run_indices", J::Arr(vec![]));
-                let _ = std::fs::write(replay, rj.pretty());
+                let _ = std::fs::write(replay, crate::util::with_knob(rj).pretty());
                 let res = J::obj().set("stalled", J::obj().set("replay", J::s(replay)).set("what", J::s(&what)).set("index", J::Int(*idx)).set("detail", v.to_json()));
                 let _ = std::fs::write(result, res.to_string());
             }
@@ -348,7 +348,7 @@ fn process_violation(w: &mut World, property: &str, seed: u64, cfg: &GenCfg, rep
     let path = format!("{}/{}-{}-{}{}.json", replay_dir, property, seed, if vidx < 0 { "selfcheck" } else { "run" }, vidx.max(0));
     let write = |plan: &SchedPlan, prelude: &[u64], v: &SViolation, log: &[String]| {
         let rj = replay_json(property, seed, vidx, cfg, plan, &base, prelude, v, log);
-        if let Err(e) = std::fs::write(&path, rj.pretty()) {
+        if let Err(e) = std::fs::write(&path, crate::util::with_knob(rj).pretty()) {
             harness_error(&format!("cannot write {}: {}", path, e));
         }
     };
@@ -442,7 +442,7 @@ pub fn cmd_sched(m: &HashMap<String, String>) -> i32 {
             .set("plan", plan.to_json())
             .set("original_plan", plan.to_json())
             .set("prelude_run_indices", J::Arr(pre));
-        if let Err(e) = std::fs::write(path, rj.pretty()) {
+        if let Err(e) = std::fs::write(path, crate::util::with_knob(rj).pretty()) {
             harness_error(&format!("cannot write {}: {}", path, e));
         }
         return 0;
@@ -619,6 +619,7 @@ pub fn cmd_sched(m: &HashMap<String, String>) -> i32 {
         code = 2;
     }
     res.put("wall_s", J::Num(t0.elapsed().as_secs_f64()));
+    let res = crate::util::with_knob(res);
     if let Err(e) = std::fs::write(&out, res.to_string()) {
         harness_error(&format!("cannot write {}: {}", out, e));
     }
